@@ -151,3 +151,24 @@ def compare_ticker(reply, disp):
     if len(reply) != len(disp):
         diffs.append(f"event count impl {len(disp)} model {len(reply)}")
     return diffs
+
+
+def compare_inputs_aligned(run, reply):
+    """only WHAT devices were given: every real update (device, time, k-th at that time) that the model
+    also performs must have been given the same inputs; updates that one side lacks are not this
+    comparison's business (they belong to C02/C06)"""
+    diffs = []
+    if reply.get("err"):
+        return diffs
+    real = {}
+    for e in run["trace"].of("update"):
+        real.setdefault((e["comp"], e["time"]), []).append(canon_changes(e["inputs"]))
+    mod = {}
+    for o in reply.get("obs", []):
+        mod.setdefault((o["c"], o["t"]), []).append(o["ins"])
+    for key in sorted(set(real) & set(mod)):
+        for k, (a, b) in enumerate(zip(real[key], mod[key])):
+            if a != b:
+                diffs.append(f"device {key[0]} @t={key[1]} was given {a}, model {b}")
+                break
+    return diffs
